@@ -114,7 +114,7 @@ def coq_term(case, out):
     orc = C.zlist([t[2] for t in out["zig_orc"]])
     seeded = "(init_seeded64 %s%%N %s %s %s)" % (case["seed"], C.natlit(case["n"]), C.natlit(case["d"]), orc)
     if case.get("big"):
-        return "(init64_eval %s %s %s) ++ %s" % (C.zlist(out["draws"]), C.natlit(case["n"]), C.natlit(case["d"]), seeded)
+        return seeded            # the row-major layout is part of init_seeded; the harness's replayed draws are compared by the oracle
     return "(init64_eval %s %s %s) ++ (init32_eval %s %s %s) ++ (init_seeded32 %s%%N %s %s %s) ++ (normals_eval %s%%N %s %s)" % (
         C.zlist(out["draws"]), C.natlit(case["n"]), C.natlit(case["d"]),
         C.zlist(out["draws"]), C.natlit(case["n"]), C.natlit(case["d"]),
@@ -127,7 +127,7 @@ def impl_flat(case, out):
         return None
     log = [v for t in out["zig_orc"] for v in (t[0], t[1])]
     if case.get("big"):
-        return out["f64"] + [1] + out["f64"] + [0]
+        return [1] + out["f64"] + [0]
     return (out["f64"] + out["f32"] + [1] + out["f32"] + [0]
             + [1] + out["f64"] + [0] + log)
 
@@ -145,7 +145,7 @@ def compare(case, out, model):
         return "the reference reading of xoshiro256++/ziggurat (driver/zigref.py) differs from rand_distr's draws for seed %s" % case["seed"]
     exp = impl_flat(case, out)
     if exp != model:
-        k = len(out["f64"]) if case.get("big") else len(out["f64"]) + len(out["f32"])
+        k = 0 if case.get("big") else len(out["f64"]) + len(out["f32"])
         if list(model[:k]) != exp[:k]:
             return "init_with_seed(%d,%d,%s) differs from the row-major model of the replayed draws" % (case["n"], case["d"], case["seed"])
         return ("init_with_seed(%d,%d,%s) differs from Model.Ziggurat.init_seeded: the result is not what seed -> SplitMix64 -> "
